@@ -307,6 +307,16 @@ func (dsc *dataStoreCommand) getKeyObjectUnlocked(keyName string) (sk *storeKey,
 	return
 }
 
+// records an in-place modification of a stored key: WATCH compares key ids, so the
+// key gets a new one, and the database needs saving
+func (dsc *dataStoreCommand) modifiedUnlocked(keyName string) {
+	if sk, exists := dsc.ds.getStoreKey(keyName); exists {
+		dsc.ds.dataObjectNumber++
+		sk.id = dsc.ds.dataObjectNumber
+	}
+	dsc.setDirty()
+}
+
 func (dsc *dataStoreCommand) setDirty() {
 	dsc.ds.data.dirty = true
 }
@@ -391,6 +401,7 @@ func (dsc *dataStoreCommand) getKeySetExpiration(keyName string, expiration time
 		if strBytes != nil {
 			val = string(strBytes)
 			sk.expiresAt = expiration
+			dsc.modifiedUnlocked(keyName)
 		} else {
 			exists = VALUE_WRONG_TYPE
 		}
@@ -851,6 +862,7 @@ func (dsc *dataStoreCommand) del(keyNames []string, reclaim bool) (output respVa
 				dsc.ds.data.remove(keyName)
 			} else {
 				sk.expiresAt = minTime
+				dsc.modifiedUnlocked(keyName)
 			}
 		} else if reclaim {
 			// remove expired now (if it exists)
@@ -1026,6 +1038,7 @@ func (dsc *dataStoreCommand) expire(keyName string, expiration time.Time, nx, xx
 	}
 
 	sk.expiresAt = expiration
+	dsc.modifiedUnlocked(keyName)
 	output.data = respInt(1)
 	return
 }
@@ -1045,12 +1058,16 @@ func (dsc *dataStoreCommand) expireTime(keyName string) (expiration time.Time, v
 }
 
 func (dsc *dataStoreCommand) persist(keyName string) (output respValue) {
-	sk, exists := dsc.getKeyObject(keyName)
+	dsc.lock()
+	defer dsc.unlock()
+
+	sk, exists := dsc.getKeyObjectUnlocked(keyName)
 	if !exists || !sk.expiresAt.Before(maxTime) {
 		output.data = respInt(0)
 		return
 	}
 	sk.expiresAt = maxTime
+	dsc.modifiedUnlocked(keyName)
 	output.data = respInt(1)
 	return
 }
@@ -1220,7 +1237,7 @@ func (dsc *dataStoreCommand) lpushUnlocked(keyName string, list *storeList, elem
 	}
 	list.head = &item
 	list.count++
-	dsc.setDirty()
+	dsc.modifiedUnlocked(keyName)
 }
 
 func (dsc *dataStoreCommand) lpush(keyName string, values [][]byte) (output respValue) {
@@ -1288,7 +1305,7 @@ func (dsc *dataStoreCommand) lpopUnlocked(keyName string, list *storeList, item 
 		dsc.ds.data.remove(keyName)
 	}
 
-	dsc.setDirty()
+	dsc.modifiedUnlocked(keyName)
 }
 
 func (dsc *dataStoreCommand) lpop(keyName string, count int) (values [][]byte, err *respErrorString) {
@@ -1325,7 +1342,7 @@ func (dsc *dataStoreCommand) rpushUnlocked(keyName string, list *storeList, elem
 	}
 	list.tail = &item
 	list.count++
-	dsc.setDirty()
+	dsc.modifiedUnlocked(keyName)
 }
 
 func (dsc *dataStoreCommand) rpush(keyName string, values [][]byte) (output respValue) {
@@ -1393,7 +1410,7 @@ func (dsc *dataStoreCommand) rpopUnlocked(keyName string, list *storeList, item 
 		dsc.ds.data.remove(keyName)
 	}
 
-	dsc.setDirty()
+	dsc.modifiedUnlocked(keyName)
 }
 
 func (dsc *dataStoreCommand) rpop(keyName string, count int) (values [][]byte, err *respErrorString) {
@@ -1529,6 +1546,7 @@ func (dsc *dataStoreCommand) linsert(keyName string, before bool, pivot, element
 	} else {
 		dsc.linsertAfterUnlocked(list, pivotItem, []byte(element))
 	}
+	dsc.modifiedUnlocked(keyName)
 
 	output.data = respInt(list.count)
 	return
@@ -1784,7 +1802,7 @@ func (dsc *dataStoreCommand) removeUnlocked(keyName string, list *storeList, ite
 	item.next = nil
 	item.prev = nil
 
-	dsc.setDirty()
+	dsc.modifiedUnlocked(keyName)
 }
 
 func (dsc *dataStoreCommand) lremove(keyName string, element string, count int) (removed int, err *respErrorString) {
@@ -1881,6 +1899,7 @@ func (dsc *dataStoreCommand) lset(keyName string, element string, count int) (ou
 	}
 
 	item.element = []byte(element)
+	dsc.modifiedUnlocked(keyName)
 	output.data = rstrOK
 	return
 }
@@ -2045,7 +2064,7 @@ func (dsc *dataStoreCommand) setHashTableWorker(keyName string, fieldNames, valu
 			added++
 		}
 		m.store(fieldName, values[idx])
-		dsc.setDirty()
+		dsc.modifiedUnlocked(keyName)
 	}
 	return
 }
@@ -2070,7 +2089,7 @@ func (dsc *dataStoreCommand) deleteHashTableFields(keyName string, fieldNames []
 		for _, fieldName := range fieldNames {
 			if m.remove(fieldName) {
 				removed++
-				dsc.setDirty()
+				dsc.modifiedUnlocked(keyName)
 
 				if m.count == 0 {
 					dsc.ds.data.remove(keyName)
@@ -2125,7 +2144,7 @@ func (dsc *dataStoreCommand) fieldAddInt(keyName, fieldName string, delta int64)
 		ve = VALUE_DOESNT_EXIST
 	}
 	m.store(fieldName, fmt.Sprintf("%d", value))
-	dsc.setDirty()
+	dsc.modifiedUnlocked(keyName)
 
 	return
 }
@@ -2173,13 +2192,14 @@ func (dsc *dataStoreCommand) fieldAddFloat(keyName, fieldName string, delta floa
 			ve = VALUE_OVERFLOW
 			return
 		}
-		dsc.setDirty()
+		dsc.modifiedUnlocked(keyName)
 		ve = VALUE_EXISTS
 	} else {
 		ve = VALUE_DOESNT_EXIST
 	}
 
 	m.store(fieldName, strconv.FormatFloat(value, 'f', -1, 64))
+	dsc.modifiedUnlocked(keyName)
 	return
 }
 
@@ -2463,7 +2483,7 @@ func (dsc *dataStoreCommand) setAddWorkerUnlocked(keyName string, memberNames []
 			added++
 		}
 		m.store(memberName, struct{}{})
-		dsc.setDirty()
+		dsc.modifiedUnlocked(keyName)
 	}
 	return
 }
@@ -2488,7 +2508,7 @@ func (dsc *dataStoreCommand) deleteSetMembers(keyName string, memberNames []stri
 		for _, memberName := range memberNames {
 			if m.remove(memberName) {
 				removed++
-				dsc.setDirty()
+				dsc.modifiedUnlocked(keyName)
 
 				if m.count == 0 {
 					dsc.ds.data.remove(keyName)
@@ -2961,7 +2981,7 @@ func (dsc *dataStoreCommand) setMove(source, destination, memberName string) (ou
 	}
 
 	ss.remove(memberName)
-	dsc.setDirty()
+	dsc.modifiedUnlocked(source)
 	if ss.count == 0 {
 		// a set never exists empty
 		dsc.ds.data.remove(source)
@@ -2991,7 +3011,7 @@ func (dsc *dataStoreCommand) setRemove(keyName string, members []string) (output
 	for _, member := range members {
 		if m.remove(member) {
 			removals++
-			dsc.setDirty()
+			dsc.modifiedUnlocked(keyName)
 
 			if m.count == 0 {
 				// a set never exists empty
